@@ -255,8 +255,9 @@ async fn backends() -> [u16; 2] {
     ports
 }
 
-fn bal_menu(live: &[bool; 2]) -> Vec<BalOp> {
-    let mut m = vec![BalOp::Insert(0), BalOp::Insert(1), BalOp::Remove(0), BalOp::Remove(1)];
+/// Keys 0 and 1 are reachable servers, key 2 is an address nobody listens on.
+fn bal_menu(live: &[bool; 3]) -> Vec<BalOp> {
+    let mut m = vec![BalOp::Insert(0), BalOp::Insert(1), BalOp::Remove(0), BalOp::Remove(1), BalOp::Insert(2), BalOp::Remove(2)];
     if live.iter().any(|l| *l) {
         m.push(BalOp::Call);
     }
@@ -268,9 +269,15 @@ fn bal_body(c: &BalCase, ch: &Chooser) -> Outcome {
     let c = c.clone();
     let ch = ch.clone();
     let (trace, bad) = rt.block_on(async move {
-        let ports = backends().await;
+        let up = backends().await;
+        // a port that refuses connections: bound once and released
+        let dead = match tokio::net::TcpListener::bind("127.0.0.1:0").await {
+            Ok(l) => l.local_addr().map(|a| a.port()).unwrap_or(1),
+            Err(e) => crate::explore::machinery(format!("cannot bind a loopback listener: {e}")),
+        };
+        let ports = [up[0], up[1], dead];
         let (channel, tx) = tonic::transport::Channel::balance_channel::<usize>(16);
-        let mut live = [false; 2];
+        let mut live = [false; 3];
         let mut trace: Vec<String> = vec![];
         let mut bad: Option<(String, String)> = None;
         for d in 0..c.depth {
@@ -298,15 +305,27 @@ fn bal_body(c: &BalCase, ch: &Chooser) -> Outcome {
                             break;
                         }
                         Ok(v) => match &v.error {
-                            None if v.msgs == vec![vec![42u8]] => trace.push("Call=ok".into()),
+                            // with both kinds registered the balancer's choice is its own (random): the
+                            // observation only records that the call completed
+                            None if v.msgs == vec![vec![42u8]] && (live[0] || live[1]) && live[2] => trace.push("Call=completed".into()),
+                            None if v.msgs == vec![vec![42u8]] && (live[0] || live[1]) => trace.push("Call=ok".into()),
+                            None if v.msgs == vec![vec![42u8]] => {
+                                trace.push("Call=ok?!".into());
+                                bad = Some(("balanced-call-answered-by-removed-endpoint".into(), format!("after {trace:?} only the unreachable endpoint is registered, yet the call was answered")));
+                                break;
+                            }
                             None => {
                                 trace.push("Call=wrong".into());
                                 bad = Some(("balanced-call-wrong".into(), format!("after {trace:?} the call returned {:?}", v.msgs)));
                                 break;
                             }
+                            // while the unreachable endpoint is registered the balancer may pick it, and
+                            // the call it picked it for is told so (UNAVAILABLE): a definite answer
+                            Some(e) if live[2] && (live[0] || live[1]) && e.code() == tonic::Code::Unavailable => trace.push("Call=completed".into()),
+                            Some(e) if live[2] && e.code() == tonic::Code::Unavailable => trace.push("Call=Unavailable".into()),
                             Some(e) => {
                                 trace.push(format!("Call={:?}", e.code()));
-                                bad = Some(("balanced-call-failed".into(), format!("after {trace:?} (endpoints registered and reachable: {live:?}) the call failed with {}", crate::env::fmt_status(e))));
+                                bad = Some(("balanced-call-failed".into(), format!("after {trace:?} (endpoints registered: {live:?}; 0 and 1 are reachable, 2 is not) the call failed with {}", crate::env::fmt_status(e))));
                                 break;
                             }
                         },
@@ -380,12 +399,12 @@ pub fn property(tier: Tier) -> Property {
         body,
     )
     .mins(200, 4, 50);
-    let bdepth = tier.q(5, 6);
+    let bdepth = tier.q(4, 5);
     let bal = Section::new(
         "balance-discovery",
         Config { hang_secs: 120, ..Default::default() },
-        "cases: every history of depth 5 (thorough 6) over {insert endpoint k, remove endpoint k (k in 0..2), call (only while the model has an endpoint registered)} on a fresh Channel::balance_channel (choices cost nothing; one case per first operation). A balanced channel connects inserted endpoints with tonic's own TCP connector, so this section alone runs over real loopback sockets in real time against two tonic servers on 127.0.0.1 that each execution starts for itself; the only verdict taken from it is completion: RefBalance = the set of registered keys; a call issued while that set is non-empty must return the backend's answer (bound: 20 s of real time, thousands of times a loopback call's latency) — whether an endpoint was registered before, removed and registered again must not matter. Non-trivial = the history removes an endpoint and makes a call.",
-        bal_menu(&[false; 2]).into_iter().map(|first| BalCase { first, depth: bdepth }).collect(),
+        "cases: every history of depth 4 (thorough 5) over {insert endpoint k, remove endpoint k (k in 0..3; 0 and 1 are reachable servers, 2 is an address nobody listens on), call (only while the model has an endpoint registered)} on a fresh Channel::balance_channel (choices cost nothing; one case per first operation). A balanced channel connects inserted endpoints with tonic's own TCP connector, so this section alone runs over real loopback sockets in real time against two tonic servers on 127.0.0.1 that each execution starts for itself; the only verdict taken from it is completion: RefBalance = the set of registered keys; a call issued while that set is non-empty completes (bound: 20 s of real time, thousands of times a loopback call's latency) — with the backend's answer when only reachable endpoints are registered, with UNAVAILABLE when only the unreachable one is, with either when both kinds are — whether an endpoint was registered before, removed and registered again must not matter. Non-trivial = the history removes an endpoint and makes a call.",
+        bal_menu(&[false; 3]).into_iter().map(|first| BalCase { first, depth: bdepth }).collect(),
         |c: &BalCase| format!("first={:?} depth={}", c.first, c.depth),
         bal_body,
     )
